@@ -235,30 +235,45 @@ def ghost_terms(cs, st):
              "(= (select %s %s) (select CE %s))" % (st.get("c", "CS"), csr_index(c), csr_index(c))) for c in sorted(cs)]
 
 
+def is_aux_reg(v):
+    return v["t"] == "Vic"
+
+
+def is_aux_mem(loc):
+    return loc["t"] == "CsrMem"
+
+
 def houdini(nodes, decls):
-    """Strongest auxiliary invariant of the form "CSR c holds its entry content here", inferred with
-    the solver (Houdini): start from every candidate, drop the ones whose verification condition is
-    satisfiable, repeat until all the remaining ones are inductive.  Used when the syntactic
-    `csr_untouched` is too weak (a handler that swaps a register with uscratch twice restores it)."""
+    """Auxiliary facts, inferred with the solver (Houdini: start from every candidate, drop the ones
+    whose verification condition is satisfiable, repeat until the remaining ones are inductive).
+    Candidates: (i) "CSR c holds its entry content here" (ours; the syntactic `csr_untouched` is too
+    weak for a handler that swaps a register with uscratch twice), and (ii) the tool's own `ValueInCsr`
+    register tags and CSR-pointed memory facts.  Those tags are none of the kinds of claim C01 lists
+    (constant, label address, entry value + constant, stack slot) and have no meaning that all of them
+    satisfy; they are kept exactly as far as they are inductive under the reading "the content the CSR
+    had on entry", and whatever C01-kind claim the tool derives from a tag that is NOT inductive then
+    fails its own verification condition - that is what gets reported.
+    -> (nodes with the non-inductive auxiliary facts removed, (u_in, u_out), rounds, dropped)"""
     allc = set()
     for n in nodes:
         if n["kind"] == "inst" and n["inst"] and n["inst"]["k"] in ("Csr", "CsrImm"):
             allc.add(n["inst"]["csr"])
+    work = [dict(n, rin=list(n["rin"]), rout=list(n["rout"]), min=list(n["min"]), mout=list(n["mout"])) for n in nodes]
     base = {"r": {i: "r%d" % i for i in range(1, 32)}, "m": "M"}
     u_out = [set(allc) for _ in nodes]
-    rounds = 0
+    rounds, dropped = 0, 0
+    entry_eq = " ".join("(= r%d e%d)" % (i, i) for i in range(1, 32)) + " (= CS CE)"
     while True:
         rounds += 1
         u_in = []
-        for idx, n in enumerate(nodes):
+        for idx, n in enumerate(work):
             ni = set(allc)
             if n["kind"] not in ("program_entry", "func_entry"):
                 for p in n.get("prevs", []):
                     if p >= 0:
                         ni &= u_out[p]
             u_in.append(ni)
-        items, where = [], []
-        extra = []
+        queries, where, extra = [], [], []
         cnt = [0]
 
         def fresh():
@@ -266,26 +281,62 @@ def houdini(nodes, decls):
             name = "g%d" % cnt[0]
             extra.append("(declare-const %s (_ BitVec 32))" % name)
             return name
-        for idx, n in enumerate(nodes):
+
+        def aux_out(n):
+            return [("rout", f) for f in n["rout"] if is_aux_reg(f[1])] + [("mout", f) for f in n["mout"] if is_aux_mem(f[0])]
+
+        def aux_in(n):
+            return [("rin", f) for f in n["rin"] if is_aux_reg(f[1])] + [("min", f) for f in n["min"] if is_aux_mem(f[0])]
+
+        def term_of(side, f, st):
+            g = gamma([f], [], st) if side[0] == "r" else gamma([], [f], st)
+            return g[0][1] if g else None
+        for idx, n in enumerate(work):
             if n["kind"] in ("program_entry", "func_entry"):
-                continue
-            pre = [t for _, t in gamma(n["rin"], n["min"], base)] + [t for _, t in ghost_terms(u_in[idx], base)]
-            post = step(n, base, fresh)
-            if n.get("call"):
-                u_out[idx] = set()
-                continue
-            for _, t in ghost_terms(u_out[idx], post):
-                items.append((None, "(and %s (not %s))" % (" ".join(pre) or "true", t)))
-            where += [(idx, c) for c in sorted(u_out[idx])]
-        items = [(decls + extra, q) for _, q in items]
-        verdicts = solve(items) if items else []
+                for side, f in aux_out(n):
+                    t = term_of(side, f, base)
+                    if t:
+                        queries.append("(and %s (not %s))" % (entry_eq, t))
+                        where.append((idx, side, f))
+            else:
+                pre = " ".join([t for _, t in gamma(n["rin"], n["min"], base)] + [t for _, t in ghost_terms(u_in[idx], base)]) or "true"
+                post = step(n, base, fresh)
+                if n.get("call"):
+                    u_out[idx] = set()
+                for side, f in aux_out(n):
+                    t = term_of(side, f, post)
+                    if t:
+                        queries.append("(and %s (not %s))" % (pre, t))
+                        where.append((idx, side, f))
+                for c in sorted(u_out[idx]):
+                    queries.append("(and %s (not %s))" % (pre, ghost_terms([c], post)[0][1]))
+                    where.append((idx, "ghost", c))
+            have = None
+            for m in n["nexts"]:
+                if m < 0 or work[m]["kind"] in ("program_entry", "func_entry"):
+                    continue
+                for side, f in aux_in(work[m]):
+                    t = term_of(side, f, base)
+                    if t:
+                        if have is None:
+                            have = " ".join([x for _, x in gamma(n["rout"], n["mout"], base)] + [x for _, x in ghost_terms(u_out[idx], base)]) or "true"
+                        queries.append("(and %s (not %s))" % (have, t))
+                        where.append((m, side, f))
+        verdicts = solve([(decls + extra, q) for q in queries]) if queries else []
         removed = False
-        for (idx, c), v in zip(where, verdicts):
-            if v != "unsat":
-                u_out[idx].discard(c)
+        for (idx, side, f), v in zip(where, verdicts):
+            if v == "unsat":
+                continue
+            if side == "ghost":
+                if f in u_out[idx]:
+                    u_out[idx].discard(f)
+                    removed = True
+            elif f in work[idx][side]:
+                work[idx][side].remove(f)
                 removed = True
-        if not removed or rounds > 50:
-            return (u_in, u_out), rounds
+                dropped += 1
+        if not removed or rounds > 60:
+            return work, (u_in, u_out), rounds, dropped
 
 
 def vcs_for(prog_nodes, ghost=None):
@@ -456,7 +507,8 @@ def run(programs, cvc5_crosscheck=True):
         if not any(n["kind"] == "inst" and n["inst"] and n["inst"]["k"] in ("Csr", "CsrImm") for n in nodes):
             continue
         ldecls = ["(declare-const la_%s (_ BitVec 32))" % l for l in labels_of(nodes)]
-        ghost, rounds = houdini(nodes, ldecls)
+        nodes, ghost, rounds, dropped = houdini(nodes, ldecls)
+        r["aux_tags_not_inductive"] = dropped
         vcs, decls = vcs_for(nodes, ghost)
         its = [(decls + ldecls, q) for _, _, q in vcs]
         vs = solve(its)
